@@ -94,6 +94,11 @@ func runC16(res *Result, tier string, seed int64, replay string) {
 		`<mj-accordion-element><mj-accordion-title>T</mj-accordion-title><mj-accordion-text>X</mj-accordion-text></mj-accordion-element><mj-accordion-element icon-position="right" font-family="Arial" border="none"><mj-accordion-title font-size="9px">T2</mj-accordion-title><mj-accordion-text color="#010101">X2</mj-accordion-text></mj-accordion-element></mj-accordion>` +
 		`<mj-carousel tb-border="2px solid #0000ff" tb-border-radius="3px" tb-width="40px" border-radius="4px" icon-width="30px" thumbnails="visible"><mj-carousel-image src="a.png" href="l" alt="a" title="t"/><mj-carousel-image src="b.png" tb-border="none" border-radius="0" thumbnails-src="tb.png"/></mj-carousel>` +
 		`</mj-column></mj-section></mj-body></mjml>`})
+	// author HTML with a REPEATED attribute name inside mj-table (the XML layer accepts it): whatever the renderer makes of the
+	// repetition, it makes it in its own copy
+	docs = append(docs, struct{ name, src string }{"explicit:repeated-attribute-names", `<mjml><mj-body><mj-section><mj-column>` +
+		`<mj-table><tr class="r" class="s" id="i"><td class="a" class="b" align="left">x</td><td align="left" class="a" align="right" class="b" width="10">y</td></tr></mj-table>` +
+		`<mj-table><tr><td style="a:b" style="c:d" class="k">z</td></tr></mj-table></mj-column></mj-section></mj-body></mjml>`})
 	// children written in an order a renderer might "normalise": text before title, several titles, links and images with raw
 	// content between them, duplicated and out-of-order social networks, head elements after the body
 	docs = append(docs, struct{ name, src string }{"explicit:child-orders", `<mjml><mj-body><mj-section><mj-column>` +
